@@ -120,3 +120,21 @@ Proof. intros i ran rws0 PRE. unfold run_command, cmd_pre in *.
     intros E. unfold run_plan, run_cmd in E. change (map (fun r => RevStep r false) plan) with (down_steps plan) in E.
     rewrite ERS in E. cbn [option_map] in E. inversion E; subst. exists (rows s'). split; auto.
     apply (plan_state_preserved G rowsN A0 plan false os s' HG HS CL ERS SH I'). Qed.
+
+(* ---------- names -> positions: re-reading the rows a command left gives back the same positions ---------- *)
+Lemma pos_from_nth_nodup H : forall k m r, NoDup (map R.s_id H) -> nth_error H m = Some r ->
+  pos_from k H (R.s_id r) = Some (k + N.of_nat m)%N.
+Proof. induction H as [|a H IH]; intros k m r ND E; [destruct m; discriminate|]. destruct m as [|m]; cbn [nth_error] in E.
+  - inversion E; subst. cbn [pos_from]. rewrite ResolveProof.streqb_refl. f_equal. lia.
+  - cbn [pos_from]. cbn [map] in ND. inversion ND as [|? ? Hn ND']; subst.
+    destruct (R.streqb (R.s_id a) (R.s_id r)) eqn:Ex.
+    + apply ResolveProof.streqb_eq in Ex. exfalso. apply Hn. rewrite Ex. apply in_map. eapply nth_error_In; eauto.
+    + rewrite (IH (N.succ k) m r ND' E). f_equal. lia. Qed.
+
+Theorem names_roundtrip H : NoDup (map R.s_id H) -> forall l,
+  Forall (fun n => (N.to_nat n < length H)%nat) l -> pos_list H (names H l) = Some l.
+Proof. intros ND l. induction l as [|n l IH]; intros F; [reflexivity|].
+  inversion F as [|? ? Hn F']; subst. unfold names in *. cbn [map pos_list]. rewrite (IH F').
+  destruct (nth_error H (N.to_nat n)) as [r|] eqn:E; [|apply nth_error_None in E; lia].
+  unfold name_of. rewrite E. unfold pos. rewrite (pos_from_nth_nodup H 0%N (N.to_nat n) r ND E).
+  replace (0 + N.of_nat (N.to_nat n))%N with n by lia. reflexivity. Qed.
